@@ -35,6 +35,10 @@ pub enum Inject {
     /// the file holds bytes that are not UTF-8 (a lone Latin-1 byte, a truncated sequence, 0xFF):
     /// in a comment, in a string literal, as a token of its own, in a label (selector)
     InvalidUtf8(u8),
+    /// the file begins with, contains at the start of a line, or ends with a byte sequence that
+    /// tools tend to treat specially (byte order marks, `#!`, escape introducers, CR LF, end-of-input
+    /// controls, blank look-alikes): whatever lace makes of it, all entry points make the same (selector)
+    Signature(u8),
 }
 
 #[derive(Clone, Debug, Serialize, Deserialize)]
@@ -70,6 +74,18 @@ fn pcrel_form(k: u8) -> (Op, Vec<u8>) {
 /// The bytes of the source file: the text, with the placeholder of `Inject::InvalidUtf8` replaced
 /// by bytes that are not UTF-8.
 fn file_bytes(text: &str, inject: Inject) -> Vec<u8> {
+    if let Inject::Signature(sel) = inject {
+        let sig = crate::gen::STREAM_SIGNATURES[(sel as usize / 3) % crate::gen::STREAM_SIGNATURES.len()];
+        let t = text.as_bytes();
+        return match sel % 3 {
+            0 => [sig, t].concat(),
+            1 => {
+                let at = t.iter().position(|b| *b == b'\n').map(|i| i + 1).unwrap_or(t.len());
+                [&t[..at], sig, &t[at..]].concat()
+            }
+            _ => [t, sig].concat(),
+        };
+    }
     let Inject::InvalidUtf8(sel) = inject else { return text.as_bytes().to_vec() };
     let raw: &[u8] = [&[0xE9u8][..], &[0xC3], &[0xFF], &[0xE2, 0x82], &[0xED, 0xA0, 0x80], &[0x80]][(sel as usize / 4) % 6];
     let mut out = Vec::new();
@@ -115,7 +131,7 @@ fn source_for(spec: &ProgSpec, inject: Inject) -> Option<(String, bool, bool, Op
             2 => "\u{E000}\n",
             _ => "lbl\u{E000} halt\n",
         }),
-        Inject::BackwardAtSize(..) | Inject::HighOrigin(_) => {}
+        Inject::BackwardAtSize(..) | Inject::HighOrigin(_) | Inject::Signature(_) => {}
         Inject::OutOfReach(pos, form) => {
             let (op, regs) = pcrel_form(form);
             if op == Op::Call && !built.stack {
@@ -170,11 +186,11 @@ fn source_for(spec: &ProgSpec, inject: Inject) -> Option<(String, bool, bool, Op
     }
     let verdict = refasm::judge(&p, built.stack);
     let image = match &verdict {
-        Verdict::Accept(img) if matches!(inject, Inject::None | Inject::OutOfReach(..) | Inject::BackwardAtSize(..) | Inject::HighOrigin(_)) => Some(img.clone()),
+        Verdict::Accept(img) if matches!(inject, Inject::None | Inject::OutOfReach(..) | Inject::BackwardAtSize(..) | Inject::HighOrigin(_) | Inject::Signature(_)) => Some(img.clone()),
         _ => None,
     };
     let valid = match (verdict, inject) {
-        (Verdict::Accept(_), Inject::None | Inject::OutOfReach(..) | Inject::BackwardAtSize(..) | Inject::HighOrigin(_)) => true,
+        (Verdict::Accept(_), Inject::None | Inject::OutOfReach(..) | Inject::BackwardAtSize(..) | Inject::HighOrigin(_) | Inject::Signature(_)) => true,
         (Verdict::Reject("label out of reach"), Inject::OutOfReach(..) | Inject::BackwardAtSize(..)) => false,
         (Verdict::Accept(_), _) => false, // the error is in the appended text
         _ => return None,
@@ -201,11 +217,12 @@ fn judge_source(spec: &ProgSpec, inject: Inject, stack_flag: bool) -> Obs {
     obs.key = hash_of(&(&text, stack_flag));
     let shown = format!("inject={inject:?} -f stack: {stack_flag}, uses stack mnemonics: {uses_stack}\n{text}");
     obs.show = Some(shown.clone());
-    obs.nontrivial = matches!(inject, Inject::OutOfReach(..) | Inject::BackwardAtSize(..) | Inject::HighOrigin(_) | Inject::InvalidUtf8(_)) || uses_stack;
+    obs.nontrivial = matches!(inject, Inject::OutOfReach(..) | Inject::BackwardAtSize(..) | Inject::HighOrigin(_) | Inject::InvalidUtf8(_) | Inject::Signature(_)) || uses_stack;
     obs.label(match inject {
         Inject::None => "source-valid",
         Inject::HighOrigin(_) => "image-ends-around-top-of-memory",
         Inject::InvalidUtf8(_) => "file-is-not-utf8",
+        Inject::Signature(_) => "file-with-stream-signature",
         Inject::OutOfReach(..) | Inject::BackwardAtSize(..) if valid => "reference-barely-in-reach",
         Inject::OutOfReach(..) | Inject::BackwardAtSize(..) => "error-only-at-emission",
         _ => "error-before-emission",
@@ -326,7 +343,11 @@ fn judge_watch(contents: &[String], events: &[u8]) -> Obs {
     obs.key = hash_of(&(contents, events));
     obs.nontrivial = true;
     obs.label("watch-scenario");
-    obs.show = Some(format!("watch scenario with {} rewrites (events {events:?}):\n{}", contents.len(), contents.iter().map(|c| format!("---\n{c}")).collect::<Vec<_>>().join("\n")));
+    let clipped = |c: &String| if c.len() > 600 { format!("{} ... ({} lines, {} bytes)", &c[..(0..=400).rev().find(|i| c.is_char_boundary(*i)).unwrap_or(0)], c.lines().count(), c.len()) } else { c.clone() };
+    obs.show = Some(format!("watch scenario with {} rewrites (events {events:?}):\n{}", contents.len(), contents.iter().map(|c| format!("---\n{}", clipped(c))).collect::<Vec<_>>().join("\n")));
+    if contents.iter().any(|c| c.lines().count() > 3000) {
+        obs.label("watch-version-with-thousands-of-labels");
+    }
     if events.iter().any(|e| e & 3 != 0) {
         obs.label("watch-remove-or-rename-saves");
     }
@@ -479,16 +500,17 @@ fn judge_watch(contents: &[String], events: &[u8]) -> Obs {
             obs.set_fail(
                 sig,
                 format!(
-                    "re-check #{k}: `lace check` on the same content says {want:?} ({}), the watcher printed {got:?}:\n{}\n--- watcher stderr ---\n{}\n--- content ---\n{content}",
+                    "re-check #{k}: `lace check` on the same content says {want:?} ({}), the watcher printed {got:?}:\n{}\n--- watcher stderr ---\n{}\n--- content ---\n{}",
                     check.brief(),
                     tail.chars().take(1500).collect::<String>(),
-                    read_file(&err_path).chars().take(800).collect::<String>()
+                    read_file(&err_path).chars().take(800).collect::<String>(),
+                    clipped(content)
                 ),
             );
             break;
         }
         if want == Verdict3::Crash {
-            obs.set_fail("C07:check-crashes", format!("`lace check` crashes on this content: {}\n{content}", check.brief()));
+            obs.set_fail("C07:check-crashes", format!("`lace check` crashes on this content: {}\n{}", check.brief(), clipped(content)));
             break;
         }
     }
@@ -550,7 +572,21 @@ fn watch_scenarios() -> Vec<Vec<String>> {
     let bad_label = "start br nowhere\nhalt\n".to_string();
     let bad_emit = "start br far\n.blkw #600\nfar halt\n".to_string();
     let stack = "start push r0\npop r0\nhalt\n".to_string();
+    // versions with thousands of labels: every table the assembler keeps between statements has
+    // grown (and perhaps been reallocated) before the next version is checked
+    let big = |n: usize, v: u32| {
+        let mut t = String::from(".orig x3000\nhalt\n");
+        for i in 0..n {
+            t.push_str(&format!("lbl_{i} .fill #{v}\n"));
+        }
+        t.push_str(".end\n");
+        t
+    };
+    let uses_big_label = "start ld r0 lbl_77\nhalt\n".to_string();
+    let redefines = "lbl_1 halt\nlbl_2 .fill x1\nlbl_4000 .fill x2\n".to_string();
     vec![
+        vec![big(3700, 1), big(3700, 2), redefines.clone(), uses_big_label.clone(), labelled.clone()],
+        vec![labelled.clone(), big(9000, 1), uses_big_label, big(9000, 3), redefines, big(40_000, 1), other.clone()],
         // the same labelled source twice (needs the state reset), then a different one
         vec![labelled.clone(), labelled.clone(), other.clone(), labelled.clone()],
         // failures half-way, then valid again
@@ -573,6 +609,7 @@ fn source_cases() -> impl Strategy<Value = Case> {
         3 => (any::<u8>(), any::<u8>()).prop_map(|(a, b)| Inject::BackwardAtSize(a, b)),
         2 => any::<u8>().prop_map(Inject::HighOrigin),
         2 => any::<u8>().prop_map(Inject::InvalidUtf8),
+        2 => any::<u8>().prop_map(Inject::Signature),
     ];
     (proggen::prog_spec(10), inject, any::<bool>()).prop_map(|(spec, inject, stack_flag)| Case::Source { spec, inject, stack_flag })
 }
@@ -585,9 +622,9 @@ impl Prop for C07 {
         true
     }
     fn rule(&self) -> &'static str {
-        "ProgGen sources, valid and with one injected error of every class (lexical, operand kind, literal range, duplicate label, undefined label, repeated .orig, and a label out of reach at ANY statement position for every PC-relative form BR/BRz/LD/LDI/LEA/ST/STI/JSR/CALL - the only class that surfaces when words are emitted; paddings barely / comfortably / far beyond the reach, and backward references in programs whose total size sits exactly at the reach of the field), valid programs whose image ends within 2 words of the top of memory, files that are not UTF-8 (a Latin-1 byte, truncated or invalid sequences - in a comment, a string literal, a label or as a token), 20 kinds of file name, with and without stack mnemonics, with and without `--features stack`, through the real binary: `lace check f.asm`, `lace compile f.asm out.lc3 [flags]`, `lace run f.asm [flags]` and the bare `lace f.asm [flags]` (flag spelled `-f stack`, `--features stack` or `--features=stack`). \
+        "ProgGen sources, valid and with one injected error of every class (lexical, operand kind, literal range, duplicate label, undefined label, repeated .orig, and a label out of reach at ANY statement position for every PC-relative form BR/BRz/LD/LDI/LEA/ST/STI/JSR/CALL - the only class that surfaces when words are emitted; paddings barely / comfortably / far beyond the reach, and backward references in programs whose total size sits exactly at the reach of the field), valid programs whose image ends within 2 words of the top of memory, files that are not UTF-8 (a Latin-1 byte, truncated or invalid sequences - in a comment, a string literal, a label or as a token), files that begin with, contain at a line start or end with one of 26 stream signatures (byte order marks, `#!`, escape introducers, CR LF, end-of-input controls, blank look-alikes), 20 kinds of file name, with and without stack mnemonics, with and without `--features stack`, through the real binary: `lace check f.asm`, `lace compile f.asm out.lc3 [flags]`, `lace run f.asm [flags]` and the bare `lace f.asm [flags]` (flag spelled `-f stack`, `--features stack` or `--features=stack`). \
          Oracle: compile and run (same flags) agree on whether the source assembles (run reaches 'Running emitted binary' iff compile exits 0); compile rejects => run and (default setting) check report an error, where a crash (status 101 / signal / panic message) never counts as a report; check succeeds => compile succeeds; check never crashes. \
-         `lace watch`: three fixed scenarios of 3-7 plain rewrites (same labelled source twice, failures half-way then valid again, stack mnemonics) and 16 (quick) / 80 (thorough) generated ones - 4-7 contents from a pool of ten sources that share label names (valid, failing in the lexer, parser, at backpatch, at emission, on a duplicate label), each saved by rewriting in place, remove-then-create, rename-over or a two-step write, optionally after another file of the folder was created, removed or written: after each debounced re-check the verdict printed (Success / diagnostic / crash) must equal `lace check` on the same content; a scenario that yields no verdict within 15 s is recorded as inconclusive and not asserted. \
+         `lace watch`: five fixed scenarios of 3-7 plain rewrites (same labelled source twice, failures half-way then valid again, stack mnemonics, and two in which versions with 3,700 / 9,000 / 40,000 labels are followed by small versions that redefine or wrongly use those names) and 16 (quick) / 80 (thorough) generated ones - 4-7 contents from a pool of ten sources that share label names (valid, failing in the lexer, parser, at backpatch, at emission, on a duplicate label), each saved by rewriting in place, remove-then-create, rename-over or a two-step write, optionally after another file of the folder was created, removed or written: after each debounced re-check the verdict printed (Success / diagnostic / crash) must equal `lace check` on the same content; a scenario that yields no verdict within 15 s is recorded as inconclusive and not asserted. \
          Non-trivial: the only error is an emission-time one, or the source uses a stack mnemonic, or a watch scenario. Distinct = hash(source, flag)."
     }
     fn assumptions(&self) -> Vec<String> {
